@@ -58,7 +58,15 @@ def extract(timeout=300):
         capture_output=True, text=True, timeout=timeout,
         env=dict(os.environ, VERIF_REPO=REPO),
     )
-    return {"ok": p.returncode == 0, "log": (p.stdout + p.stderr)[-4000:], "wall_s": time.time() - t0}
+    out = p.stdout + p.stderr
+    status = {}
+    m = re.search(r"^EXTRACT-STATUS (.*)$", out, re.M)
+    if m:
+        try:
+            status = json.loads(m.group(1))
+        except ValueError:
+            status = {}
+    return {"ok": p.returncode == 0 and bool(status), "log": out[-4000:], "wall_s": time.time() - t0, "generators": status}
 
 
 def obligations(props_rel):
